@@ -230,6 +230,8 @@ func c10r1(c *core.Ctx) {
 }
 
 func c10r2(c *core.Ctx) {
+	transportWiring(c)
+	charRegistration(c)
 	p := c.P
 	add := p.Func("", "(*ipTransport).addAccessory")
 	notify := p.Func("", "(*ipTransport).notifyListener")
@@ -377,6 +379,7 @@ func c10r2(c *core.Ctx) {
 }
 
 func c10r3(c *core.Ctx) {
+	charDispatchPolarity(c)
 	p := c.P
 	f := p.Func("characteristic", "(*Characteristic).updateValue")
 	if f == nil {
